@@ -942,4 +942,45 @@ theorem cmpLt_cases (va vb : Str) (h : cmpLt va vb = true) : compareVersion va v
     have : r = -1 := by simpa [hc] using h
     rw [this]
 
+/-! ## chains -/
+
+theorem ok_with_info (L : Laser) (X : Info) (hL : L.ok = true) (hX : noNulEnd (packInfoRaw X) = true) :
+    ({ L with info := X } : Laser).ok = true := by
+  simp only [Laser.ok, Bool.and_eq_true] at hL ⊢
+  exact ⟨hL.1, hX⟩
+
+theorem noNulEnd_of_version (ver : Str) (h : ver.all (fun c => c.isDigit || c == '.') = true) :
+    noNulEnd ver = true := by
+  unfold noNulEnd
+  cases hl : ver.getLast? with
+  | none => rfl
+  | some c =>
+    have := (List.all_eq_true.mp h) c (List.mem_of_getLast? hl)
+    have hc : c ≠ NUL := by
+      intro e; subst e; revert this; decide
+    simp [hc]
+
+theorem generations_succ (fl : Rat → Rat) (ver time : Str) (p : PathInfo) (n : Nat) (L : Laser) :
+    generations fl ver time p (n + 1) L
+      = ((save fl ver time L >>= load fl p) >>= generations fl ver time p n) := by
+  simp only [generations]
+  cases save fl ver time L <;> rfl
+
+/-- save → load of a laser whose info is that of a loaded laser only moves `File Path` to the end -/
+theorem generations_good (fl : Rat → Rat) (p : PathInfo) (ver time : Str)
+    (hls : ∀ L : Laser, L.ok = true → (save fl ver time L >>= load fl p) = .ok (normalise p ver L))
+    (L : Laser) (hL : L.ok = true) (n : Nat) (X : Info) (g : Good p ver X) :
+    generations fl ver time p (n + 1) { L with info := X } = .ok { L with info := nextInfo p X } := by
+  induction n generalizing X with
+  | zero =>
+    rw [generations_succ, hls _ (ok_with_info L X hL (noNulEnd_packInfoRaw X g.nonul))]
+    simp only [normalise, finish_spec_good p ver X g]
+    rfl
+  | succ n ih =>
+    rw [generations_succ, hls _ (ok_with_info L X hL (noNulEnd_packInfoRaw X g.nonul))]
+    simp only [normalise, finish_spec_good p ver X g]
+    have := ih (nextInfo p X) (good_next p ver X g)
+    rw [nextInfo_idem] at this
+    exact this
+
 end Pew.Npz
